@@ -13,6 +13,7 @@ import (
 
 	"github.com/risor-io/risor"
 	"github.com/risor-io/risor/compiler"
+	"github.com/risor-io/risor/object"
 	ros "github.com/risor-io/risor/os"
 	"github.com/risor-io/risor/parser"
 	"github.com/risor-io/risor/vm"
@@ -33,9 +34,12 @@ func Register() {
 // piece of a history: either generated statements (AST, evaluated by the model) or a text snippet that
 // must be rejected by the parser/compiler.
 type piece struct {
+	// Host: a single leading declaration that is handed to the session as a host-provided global
+	// (risor.WithGlobal) instead of being evaluated, when the model finds a plain value for it
+	Host   bool
 	Stmts  []gen.Stmt
 	Text   string // for rejected pieces
-	Reject string // "" | "syntax" | "undefined" | "const-assign" | "dup-func" | "effect-then-reject"
+	Reject string // "" | "syntax" | "undefined" | "const-assign" | "const-incdec" | "undefined-in-func" | "dup-func" | "effect-then-reject"
 }
 
 type pieceObs struct {
@@ -55,19 +59,86 @@ type session struct {
 	v      *vm.VirtualMachine
 	stdout *rz.OutFile
 	seen   int
+	host   []hostGlobal
 }
 
 func newSession() (*session, error) {
 	s := &session{stdout: &rz.OutFile{}}
 	s.ctx, s.cancel = context.WithTimeout(context.Background(), 60*time.Second)
+	return s, nil
+}
+
+// configure builds configuration and compiler on first use, with the host-provided globals known by then.
+func (s *session) configure() error {
+	if s.c != nil {
+		return nil
+	}
 	vos := ros.NewVirtualOS(s.ctx, ros.WithStdout(s.stdout))
-	s.cfg = risor.NewConfig(risor.WithOS(vos))
+	opts := []risor.Option{risor.WithOS(vos)}
+	for _, h := range s.host {
+		opts = append(opts, risor.WithGlobal(h.name, h.val))
+	}
+	s.cfg = risor.NewConfig(opts...)
 	c, err := compiler.New(s.cfg.CompilerOpts()...)
 	if err != nil {
-		return nil, err
+		return err
 	}
 	s.c = c
-	return s, nil
+	return nil
+}
+
+// plainExpr: literals, names, operators, indexing and list literals only — evaluating it cannot print,
+// call anything or change other state, so leaving the statement out of the session loses nothing.
+func plainExpr(e gen.Expr) bool {
+	switch x := e.(type) {
+	case *gen.IntLit, *gen.FloatLit, *gen.StrLit, *gen.BoolLit, *gen.Ident:
+		return true
+	case *gen.Prefix:
+		return plainExpr(x.X)
+	case *gen.Binary:
+		return plainExpr(x.L) && plainExpr(x.R)
+	case *gen.Ternary:
+		return plainExpr(x.C) && plainExpr(x.A) && plainExpr(x.B)
+	case *gen.Index:
+		return plainExpr(x.X) && plainExpr(x.I)
+	case *gen.ListLit:
+		for _, it := range x.Items {
+			if !plainExpr(it) {
+				return false
+			}
+		}
+		return true
+	}
+	return false
+}
+
+type hostGlobal struct {
+	name string
+	val  any
+}
+
+// hostValue converts a model value to the Go value an embedder would pass to WithGlobal.
+func hostValue(v gen.Value) (any, bool) {
+	switch x := v.(type) {
+	case int64, float64, string, bool:
+		return x, true
+	case *gen.List:
+		items := make([]object.Object, 0, len(x.Items))
+		for _, it := range x.Items {
+			switch y := it.(type) {
+			case int64:
+				items = append(items, object.NewInt(y))
+			case string:
+				items = append(items, object.NewString(y))
+			case bool:
+				items = append(items, object.NewBool(y))
+			default:
+				return nil, false
+			}
+		}
+		return object.NewList(items), true
+	}
+	return nil, false
 }
 
 func (s *session) eval(src string) (o pieceObs, goPanic string) {
@@ -79,6 +150,9 @@ func (s *session) eval(src string) (o pieceObs, goPanic string) {
 		o.Out = full[s.seen:]
 		s.seen = len(full)
 	}()
+	if err := s.configure(); err != nil {
+		panic(err)
+	}
 	ast, err := parser.Parse(s.ctx, src)
 	if err != nil {
 		o.Status, o.Err = "rejected", err.Error()
@@ -146,6 +220,8 @@ type out struct {
 	Rejected   int       `json:"rejected"`
 	Failed     int       `json:"failed"`
 	Globals    int       `json:"globals_compared"`
+	Hosted     int       `json:"host_provided_globals"`
+	Nested     int       `json:"stored_function_sessions"`
 	Discarded  int       `json:"discarded"`
 	Sigs       []string  `json:"sigs"`
 	Fail       []failure `json:"fail"`
@@ -165,6 +241,14 @@ func rejectPiece(kind string, k int, consts, funcs []string) piece {
 		if len(consts) > 0 {
 			return piece{Text: fmt.Sprintf("%s = 5", consts[k%len(consts)]), Reject: "const-assign"}
 		}
+	case "const-incdec":
+		if len(consts) > 0 {
+			return piece{Text: fmt.Sprintf("%s%s", consts[k%len(consts)], []string{"++", "--"}[k%2]), Reject: "const-incdec"}
+		}
+	case "undefined-in-func":
+		// the failure happens while the compiler is inside a function body
+		forms := []string{"func rjf_%d() { return nosuchname_%d }", "rjv_%d := func(a) { return func() { return a + nosuchname_%d } }", "[1].map(func(x) { nosuchname_%[2]d })"}
+		return piece{Text: fmt.Sprintf(forms[k%len(forms)], k, k), Reject: "undefined-in-func"}
 	case "dup-func":
 		if len(funcs) > 0 {
 			return piece{Text: fmt.Sprintf("func %s() { return 1 }", funcs[k%len(funcs)]), Reject: "dup-func"}
@@ -176,7 +260,7 @@ func rejectPiece(kind string, k int, consts, funcs []string) piece {
 }
 
 // runHistory evaluates one history on the real protocol and on the incremental model and compares.
-func runHistory(pieces []piece) (sig, detail, script string, st struct{ pieces, rejected, failed, globals int }, decided bool, herr error) {
+func runHistory(pieces []piece) (sig, detail, script string, st struct{ pieces, rejected, failed, globals, hosted int }, decided bool, herr error) {
 	in := gen.NewInterp()
 	in.LenientNames = true
 	in.Start()
@@ -192,6 +276,57 @@ func runHistory(pieces []piece) (sig, detail, script string, st struct{ pieces, 
 		src := pc.Text
 		if pc.Reject == "" {
 			src = gen.RenderProgram(&gen.Program{Stmts: pc.Stmts})
+		}
+		if pc.Host && sess.c == nil {
+			// try to hand this declaration to the session as a host-provided global: the model evaluates it;
+			// when that gives a plain value without printing or failing, the real session never sees the
+			// statement and gets the value through WithGlobal instead
+			vd := pc.Stmts[0].(*gen.VarDecl)
+			var o gen.Outcome
+			var ok bool
+			func() {
+				defer func() {
+					if r := recover(); r != nil {
+						herr = fmt.Errorf("model panic: %v", r)
+					}
+				}()
+				o, ok = in.RunPiece(pc.Stmts)
+			}()
+			if herr != nil {
+				return "", "", sb.String(), st, false, herr
+			}
+			if !ok {
+				return "", "", sb.String(), st, false, nil
+			}
+			hosted := false
+			if o.Err == "" && o.Out == "" {
+				if mv, found := in.GlobalValue(vd.Name); found {
+					if gv, conv := hostValue(mv); conv {
+						sess.host = append(sess.host, hostGlobal{vd.Name, gv})
+						st.hosted++
+						hosted = true
+						fmt.Fprintf(&sb, "--- host-provided global %s = %s (instead of: %s)\n", vd.Name, gen.Render(mv), strings.TrimRight(src, "\n"))
+					}
+				}
+			}
+			if hosted {
+				continue
+			}
+			// not a plain value: the statement is an ordinary piece, which the model has already run
+			fmt.Fprintf(&sb, "--- piece %d (generated)\n%s\n", pi, strings.TrimRight(src, "\n"))
+			want := pieceObs{Status: "accepted", Value: o.Result, Out: o.Out}
+			if o.Err != "" {
+				want = pieceObs{Status: "failed", Err: o.Err, Out: o.Out}
+				st.failed++
+			}
+			got, goPanic := sess.eval(src)
+			if goPanic != "" {
+				return "go-panic-escaped", mon.Truncate(goPanic, 1500), sb.String(), st, true, nil
+			}
+			if got.Status != want.Status || got.Out != want.Out || (want.Status == "accepted" && got.Value != want.Value) || (want.Status == "failed" && got.Err != want.Err) {
+				return "incremental:first-declaration", fmt.Sprintf("piece %d: model %+v, real %+v", pi, want, got), sb.String(), st, true, nil
+			}
+			continue
 		}
 		fmt.Fprintf(&sb, "--- piece %d (%s)\n%s\n", pi, map[bool]string{true: "expected to be rejected: " + pc.Reject, false: "generated"}[pc.Reject != ""], strings.TrimRight(src, "\n"))
 		var want pieceObs
@@ -278,6 +413,9 @@ func runHistory(pieces []piece) (sig, detail, script string, st struct{ pieces, 
 		if !ok {
 			continue
 		}
+		if strings.Contains(final[n], "<function>") {
+			continue // functions inside containers render as source text on the real side
+		}
 		st.globals++
 		if got != final[n] {
 			if d20Seen {
@@ -313,6 +451,36 @@ func worker(kind string, data json.RawMessage) any {
 		if len(o.Fail) < 10 {
 			o.Fail = append(o.Fail, f)
 		}
+	}
+	if c.Kind == "nested" {
+		r0 := mon.NewRand(c.PartSeed).Split("nested")
+		for i := c.From; i < c.From+c.N; i++ {
+			pieces, shape := nestedHistory(r0.SplitN(i), i)
+			o.Programs++
+			sig, detail, script, st, decided, herr := runHistory(pieces)
+			if herr != nil {
+				if len(o.Harness) < 3 {
+					o.Harness = append(o.Harness, herr.Error()+"\n"+script)
+				}
+				continue
+			}
+			if !decided {
+				o.Discarded++
+				continue
+			}
+			o.Histories++
+			o.Pieces += st.pieces
+			o.Failed += st.failed
+			o.Globals += st.globals
+			o.Hosted += st.hosted
+			o.Nested++
+			if sig != "" {
+				addFail(failure{Index: i, Sig: "stored-function:" + sig, Detail: detail, Script: script})
+				continue
+			}
+			o.Sigs = append(o.Sigs, fmt.Sprintf("%s|pieces=%d", shape, st.pieces))
+		}
+		return o
 	}
 	if c.Kind == "long" {
 		// long histories: state that accumulates across inputs (a third of the pieces fail)
@@ -380,8 +548,20 @@ func worker(kind string, data json.RawMessage) any {
 		}
 		for hi, cs := range cutSets {
 			var pieces []piece
-			cur := []gen.Stmt{p.Stmts[0]}
-			for b := 0; b < n-1; b++ {
+			// every third history: leading plain declarations become host-provided globals
+			lead := 0
+			if hi%3 == 2 {
+				for lead < 3 && lead < n-1 {
+					vd, ok := p.Stmts[lead].(*gen.VarDecl)
+					if !ok || vd.Kind == "const" || !plainExpr(vd.X) {
+						break
+					}
+					pieces = append(pieces, piece{Host: true, Stmts: []gen.Stmt{vd}})
+					lead++
+				}
+			}
+			cur := []gen.Stmt{p.Stmts[lead]}
+			for b := lead; b < n-1; b++ {
 				if cs[b] {
 					pieces = append(pieces, piece{Stmts: cur})
 					cur = nil
@@ -391,7 +571,7 @@ func worker(kind string, data json.RawMessage) any {
 			pieces = append(pieces, piece{Stmts: cur})
 			if c.Rejects && hi%2 == 1 {
 				// insert rejected pieces at random positions
-				kinds := []string{"syntax", "undefined", "const-assign", "dup-func"}
+				kinds := []string{"syntax", "undefined", "const-assign", "dup-func", "const-incdec", "undefined-in-func"}
 				if c.D20 {
 					kinds = []string{"effect-then-reject"}
 				}
@@ -430,6 +610,7 @@ func worker(kind string, data json.RawMessage) any {
 			o.Rejected += st.rejected
 			o.Failed += st.failed
 			o.Globals += st.globals
+			o.Hosted += st.hosted
 			if sig != "" {
 				addFail(failure{Index: i, Sig: sig, Detail: detail, Script: script})
 				break
@@ -444,7 +625,7 @@ func worker(kind string, data json.RawMessage) any {
 }
 
 func drive(d *mon.Driver, replay string) int {
-	d.Rule = "a generated program's top-level statements are partitioned into consecutive pieces (all partitions for <=5 statements, sampled plus the one-statement-per-piece partition above), optionally with rejected pieces (syntax error, undefined name, constant reassignment, duplicate function) inserted at random positions; statements that fail at run time make failing pieces. The pieces are fed to one compiler and one VM with the REPL's protocol (Parse+Compile per piece, Run, SetIP(end) after a failure) and, as the reference, to the reference interpreter piece by piece: per piece status (accepted/rejected/failed), value, error class and printed output must agree, and at the end every global. Plus long sessions (thousands of pieces, a third failing). distinct: (program feature signature, #pieces, #rejected, #failing)"
+	d.Rule = "a generated program's top-level statements are partitioned into consecutive pieces (all partitions for <=5 statements, sampled plus the one-statement-per-piece partition above), optionally with rejected pieces (syntax error, undefined name at top level or inside a function body, constant reassignment or ++/--, duplicate function) inserted at random positions; statements that fail at run time make failing pieces. The pieces are fed to one compiler and one VM with the REPL's protocol (Parse+Compile per piece, Run, SetIP(end) after a failure) and, as the reference, to the reference interpreter piece by piece: per piece status (accepted/rejected/failed), value, error class and printed output must agree, and at the end every global. Leading plain declarations of every third history are handed to the session as host-provided globals (WithGlobal) instead of being evaluated. Plus stored-function sessions (a function made inside another function, at depth 2-3, returned / kept in a list or map / made in a method callback, reads and writes globals; later pieces change the globals at top level and call it again), and long sessions (thousands of pieces, a third failing). distinct: (program feature signature, #pieces, #rejected, #failing)"
 	d.Assume = []string{"the protocol is driven through public calls in the same order as cmd/risor/repl getEvaluator (the evaluator closure itself lives in a separate Go module)", "pieces are cut at top-level statement boundaries; generated programs never reference functions declared in later pieces"}
 	var cases []mon.Case
 	if replay != "" {
@@ -465,6 +646,10 @@ func drive(d *mon.Driver, replay string) int {
 				cd.D20 = true
 			}
 			cases = append(cases, mon.NewCase(fmt.Sprintf("gen-%d", from), "gen", cd))
+		}
+		nn := d.N(600, 20000)
+		for from := 0; from < nn; from += 200 {
+			cases = append(cases, mon.NewCase(fmt.Sprintf("nested-%d", from), "nested", caseData{Batch: eng.Batch{From: from, N: 200}, Kind: "nested", PartSeed: pseed}))
 		}
 		for _, n := range []int{50, 1200, d.N(2500, 6000)} {
 			cases = append(cases, mon.NewCase(fmt.Sprintf("long-%d", n), "long", caseData{Kind: "long", Long: n}))
@@ -502,6 +687,8 @@ func drive(d *mon.Driver, replay string) int {
 		d.Event("rejected-pieces", o.Rejected)
 		d.Event("failing-pieces", o.Failed)
 		d.Event("final-globals-compared", o.Globals)
+		d.Event("host-provided-globals", o.Hosted)
+		d.Event("stored-function-sessions", o.Nested)
 		d.Event("programs-discarded-undecided", o.Discarded)
 		for _, s := range o.Sigs {
 			d.Distinct(s)
